@@ -1,6 +1,7 @@
 package main
 
 import (
+	"bytes"
 	"fmt"
 	"math/rand"
 	"time"
@@ -203,6 +204,64 @@ func runC09(c *Check, rng *rand.Rand) {
 	}
 	// a reader that stops and goes, twice on one connection
 	c02stopAndGo(c, env, script, c.Seed+9, "C09")
+
+	// a reader that does not read at all while thousands of replies pile up for it - the
+	// kernel buffers fill, then the proxy's ring, then one list chunk per reply, far more
+	// than one vectored write takes - and then reads: everything must arrive
+	for k := 0; k < c.Pick(1, 6) && env.P.Alive(); k++ {
+		cl, err := DialClient(env.P.Addr, "", 8192)
+		must(err, "dial")
+		cl.PauseReading(true)
+		nbig, nsmall := 300+rng.Intn(400), 3000+rng.Intn(4000)
+		if k%2 == 1 {
+			nbig, nsmall = 0, 5000+rng.Intn(3000)
+		}
+		before := env.Cl.LogLen()
+		bigVal := bytes.Repeat([]byte("P"), 16384)
+		var batch []byte
+		var keys []string
+		for i := 0; i < nbig+nsmall; i++ {
+			key := Key(rng.Intn(16384), newToken("pz"))
+			keys = append(keys, key)
+			if i < nbig {
+				script.Plan(key).Act = func(*BReq) Action { return Action{Reply: BulkReply(bigVal)} }
+			} else {
+				script.Plan(key).Act = func(*BReq) Action { return Action{Reply: BulkReply([]byte("1"))} }
+			}
+			batch = append(batch, Req("GET", key)...)
+			if len(batch) > 32768 {
+				cl.Send(batch)
+				batch = nil
+			}
+		}
+		cl.Send(batch)
+		// every request has been answered by its node
+		for i := 0; i < 600 && env.Cl.LogLen()-before < nbig+nsmall; i++ {
+			time.Sleep(20 * time.Millisecond)
+		}
+		answered := env.Cl.LogLen() - before
+		env.Barrier()
+		time.Sleep(200 * time.Millisecond)
+		cl.PauseReading(false)
+		ok := cl.WaitReplies(answered, 15*time.Second)
+		if !ok {
+			env.Barrier()
+			time.Sleep(time.Second)
+			env.Barrier()
+			ok = cl.NReplies() >= answered
+		}
+		c.Eval(1)
+		c.Distinct(fmt.Sprintf("paused-reader/%d/%d", nbig, nsmall))
+		if !ok {
+			c.Violate(Violation{Class: "completed-replies-withheld", Shape: "reader-resumes-after-deep-backlog",
+				Detail:  fmt.Sprintf("the client did not read while %d requests (%d of them with 16 KB replies) were answered by the nodes; after it resumed reading it holds %d replies 15 s later", answered, nbig, cl.NReplies()),
+				Witness: map[string]interface{}{"big_replies": nbig, "small_replies": nsmall, "answered_by_nodes": answered, "received": cl.NReplies(), "proxy_alive": env.P.Alive()}})
+		} else {
+			c.Count("due_replies_delivered", int64(answered))
+		}
+		cl.Close()
+		script.Forget(keys...)
+	}
 
 	// (b) open loop
 	episodes := c.Pick(6, 60)
